@@ -1,9 +1,11 @@
 import Lean.Data.Json
-/-! Line-protocol handler for property C15 (model side of the correspondence). -/
+import SpoxModel.Drv.VPCodec
+/-! Line-protocol handler for property C15 (model side of the correspondence): conversions,
+    `check` and node construction under a scripted backend, on the *fixed* variant unless the
+    request says `"variant": "pinned"`. -/
 namespace Drv.C15
 open Lean
 
-/-- One request (a JSON value) in, one response (a JSON value) out. -/
-def handle (_req : Json) : Json := Json.mkObj [("error", "unimplemented")]
+def handle (req : Json) : Json := Drv.VPCodec.handle req
 
 end Drv.C15
